@@ -645,7 +645,7 @@ FILESETS = {
 # =============================================================================== fault cases
 # skeleton positions for an injected fault; see _fault_recipe.  `exc` is a Python exception name.
 FAULT_SITES = ["field_call", "field_attr", "var_call", "var_attr", "count_call", "count_attr", "count_conv_simple",
-               "count_conv_struct", "count_conv_inf", "foreach_call", "foreach_noniter", "write_row", "field_simple",
+               "count_conv_struct", "count_conv_inf", "foreach_call", "foreach_attr", "foreach_noniter", "write_row", "field_simple",
                "field_arg", "var_simple", "count_simple"]
 FAULT_DEPTHS = ["top", "friend", "nested", "var_template", "friend_of_friend"]
 FAULT_EXCS = ["KeyError", "ValueError", "TypeError", "AttributeError", "AssertionError", "OverflowError",
@@ -688,6 +688,8 @@ def _fault_recipe(site, dep, exc):
         t["for_each"] = {"var": "r", "value": boom}
     elif site == "foreach_noniter":
         t["for_each"] = {"var": "r", "value": {"Boom.text": "abc"}}
+    elif site == "foreach_attr":
+        t["for_each"] = {"var": "r", "value": {"Boom.nosuch": 1}}
     elif site == "write_row":
         t["count"] = 2
     else:
@@ -735,7 +737,7 @@ def generate(rng, tier):
                     if exc == "StopIteration" and site.endswith("_simple"):
                         continue        # Jinja's generator-based rendering absorbs StopIteration
                     if site in ("count_conv_simple", "count_conv_struct", "count_conv_inf", "foreach_noniter",
-                                "field_attr", "var_attr", "count_attr") and exc != "KeyError":
+                                "field_attr", "var_attr", "count_attr", "foreach_attr") and exc != "KeyError":
                         continue
                     cases.append({"kind": "fault", "site": site, "depth": dep, "exc": exc,
                                   "nth": rng.choice([1, 1, 2]) if site == "write_row" else 0})
@@ -1139,6 +1141,7 @@ def fault_path(case):
         "count_conv_struct": (["(STmplCount false)"], "LCountConv", "ValueError"),
         "count_conv_inf": (["(STmplCount true)"], "LCountConv", "OverflowError"),
         "foreach_call": (["STmplForEach"], "LFunc", exc),
+        "foreach_attr": (["STmplForEach"], "LLookup", "AttributeError"),
         "foreach_noniter": (["STmplForEach"], "LForEachType", "DGE"),
         "write_row": ([], "LWrite", exc),
     }
@@ -1361,7 +1364,7 @@ FINDINGS = {
   "case": {"kind": "text", "text": "- var: v\n  value: .\n- object: A\n"}},
  "C20-R4-top-level-var-plugin-attribute": {
   "sigs": [("AttributeError", "data_generator_runtime_object_model.py:render")],
-  "what": "a top-level `var` whose value calls a function a declared plugin does not have (Math.nosuch): StructuredValue.render re-raises AttributeError before its exception_handling block and VariableDefinition.execute has no handler",
+  "what": "a top-level `var` value (or the `count` of a top-level template) that calls a function a declared plugin does not have (Math.nosuch): StructuredValue.render re-raises AttributeError before its exception_handling block; VariableDefinition.execute has no handler and _evaluate_count catches only ValueError / TypeError",
   "case": {"kind": "text", "text": "- plugin: snowfakery.standard_plugins.Math\n- var: v\n  value:\n    Math.nosuch: 1\n- object: A\n"}},
  "C20-R5-invalid-locale": {
   "sigs": [("AttributeError", "fake_data_generator.py:__init__")],
@@ -1437,6 +1440,59 @@ def _hang_class(case):
     return None
 
 
+def _top_templates(py):
+    """templates that run without a wrapping handler around their count / context: top-level statements and
+    templates that are the value of a top-level var (directly, or unwrapped from a one-element list)"""
+    out = []
+    for o in py if isinstance(py, list) else []:
+        if not isinstance(o, dict):
+            continue
+        if o.get("object"):
+            out.append(o)
+        elif o.get("var"):
+            v = o.get("value")
+            if isinstance(v, list) and len(v) == 1:
+                v = v[0]
+            if isinstance(v, dict) and v.get("object"):
+                out.append(v)
+    return out
+
+
+def _runtime_class_ok(fid, case):
+    """the input class of a run-time finding (so that the same exception from another place still fails)"""
+    if case["kind"] == "fault":
+        site, dep = case["site"], case["depth"]
+        return {"C20-R1-count-not-simple-value": site in ("count_conv_struct",) and dep in ("top", "var_template"),
+                "C20-R2-count-infinite": site in ("count_conv_inf", "count_call") and dep in ("top", "var_template")
+                                         and (site != "count_call" or case["exc"] == "OverflowError"),
+                "C20-R4-top-level-var-plugin-attribute": (site == "var_attr" and dep == "top") or
+                                                         (site == "count_attr" and dep in ("top", "var_template"))
+                }.get(fid, False)
+    text, _ = materialise(case)
+    try:
+        py = yaml.safe_load(text)
+        from_py(py)
+    except Exception:
+        return False
+    tops = [o for o in (py if isinstance(py, list) else []) if isinstance(o, dict)]
+    if fid == "C20-R1-count-not-simple-value":
+        return any(isinstance(t.get("count"), dict) for t in _top_templates(py))
+    if fid == "C20-R2-count-infinite":
+        return any(t.get("count") is not None for t in _top_templates(py))
+    if fid == "C20-R3-top-level-var-dot":
+        return any(o.get("var") and o.get("value") == "." for o in tops)
+    if fid == "C20-R4-top-level-var-plugin-attribute":
+        def dotted(v):
+            if isinstance(v, list) and len(v) == 1:
+                v = v[0]
+            return isinstance(v, dict) and any(isinstance(k, str) and "." in k for k in list(v)[:1])
+        return any(o.get("var") and dotted(o.get("value")) for o in tops) or \
+            any(dotted(t.get("count")) for t in _top_templates(py))
+    if fid == "C20-R5-invalid-locale":
+        return any(o.get("var") == "snowfakery_locale" for o in tops)
+    return True
+
+
 def match_finding(case, obs, msg, findings):
     """the id of the open finding this failure belongs to, or None (a model disagreement never matches)"""
     if msg == "model-disagreement" or not isinstance(obs, dict):
@@ -1457,6 +1513,8 @@ def match_finding(case, obs, msg, findings):
             continue
         for t, w in f["sigs"]:
             if w == sig[1] and (t == "*" or t == sig[0]):
+                if fid.startswith("C20-R") and not fid.startswith("C20-R6") and not _runtime_class_ok(fid, case):
+                    continue
                 return fid
     return None
 
